@@ -1240,6 +1240,8 @@ class Engine(object):
             if not isinstance(i, int):
                 raise Unsupported('symbolic index store')
             obj.items[i] = v
+        elif isinstance(obj, Obj) and obj.cls is not None and obj.cls.lookup('__setitem__') is not None:
+            self.call(obj.cls.lookup('__setitem__'), [obj, idx, v])
         else:
             raise Unsupported('item assignment on %s' % type(obj).__name__)
 
